@@ -28,6 +28,114 @@ theorem mem_pyTake {α} {l : List α} {i : Int} {x : α} (h : x ∈ pyTake l i) 
   unfold pyTake at h
   split at h <;> exact List.mem_of_mem_take h
 
+theorem mem_insertNat {x y : Nat} : ∀ {l : List Nat}, y ∈ insertNat x l → y = x ∨ y ∈ l := by
+  intro l
+  induction l with
+  | nil => intro h; simpa [insertNat] using h
+  | cons z r ih =>
+    intro h
+    unfold insertNat at h
+    split at h
+    · simpa using h
+    · rcases List.mem_cons.1 h with h | h
+      · exact Or.inr (by simp [h])
+      · rcases ih h with h | h
+        · exact Or.inl h
+        · exact Or.inr (List.mem_cons_of_mem _ h)
+
+theorem mem_sortIds {y : Nat} : ∀ {l : List Nat}, y ∈ sortIds l → y ∈ l := by
+  intro l
+  induction l with
+  | nil => intro h; simp [sortIds] at h
+  | cons x r ih =>
+    intro h
+    rcases mem_insertNat (show y ∈ insertNat x (sortIds r) from h) with h | h
+    · simp [h]
+    · exact List.mem_cons_of_mem _ (ih h)
+
+theorem mem_expected_set {v k : List Char} {ty x : Nat} : ∀ {e : Expected},
+    (v, ty) ∈ e.set k x → (v, ty) = (k, x) ∨ (v, ty) ∈ e := by
+  intro e
+  induction e with
+  | nil => intro h; simpa [Expected.set] using h
+  | cons p r ih =>
+    obtain ⟨k', x'⟩ := p
+    intro h
+    unfold Expected.set at h
+    split at h
+    · rcases List.mem_cons.1 h with h | h
+      · exact Or.inl h
+      · exact Or.inr (List.mem_cons_of_mem _ h)
+    · rcases List.mem_cons.1 h with h | h
+      · exact Or.inr (by rw [h]; simp)
+      · rcases ih h with h | h
+        · exact Or.inl h
+        · exact Or.inr (List.mem_cons_of_mem _ h)
+
+/-- every entry of the `expected` dict carries a token name taken from `expected_tokens` -/
+theorem buildExpected_mem (nm : Names) (attr : Nat → Option (List Char)) {v : List Char} {ty : Nat} :
+    ∀ (l : List Nat) (e : Expected), (v, ty) ∈ buildExpected nm attr l e → ty ∈ l ∨ (v, ty) ∈ e := by
+  intro l
+  induction l with
+  | nil => intro e h; exact Or.inr (by simpa [buildExpected] using h)
+  | cons t ts ih =>
+    intro e h
+    have key : ∀ k, (v, ty) ∈ buildExpected nm attr ts (e.set k t) → ty ∈ t :: ts ∨ (v, ty) ∈ e := by
+      intro k hk
+      rcases ih _ hk with h1 | h1
+      · exact Or.inl (List.mem_cons_of_mem _ h1)
+      · rcases mem_expected_set h1 with h2 | h2
+        · cases h2; exact Or.inl (by simp)
+        · exact Or.inr h2
+    have key0 : (v, ty) ∈ buildExpected nm attr ts e → ty ∈ t :: ts ∨ (v, ty) ∈ e := by
+      intro hk
+      rcases ih _ hk with h1 | h1
+      · exact Or.inl (List.mem_cons_of_mem _ h1)
+      · exact Or.inr h1
+    unfold buildExpected at h
+    split at h
+    · simp at h; exact Or.inl (by simp [h.2])
+    · split at h
+      · exact key _ h
+      · split at h
+        · exact key _ h
+        · split at h
+          · split at h
+            · exact key _ h
+            · exact key0 h
+          · exact key0 h
+
+/-- whatever the branch, a suggestion is the display value of a token name of `expected_tokens` -/
+theorem makeSuggestion_key (valid : List Nat → Bool) (nm : Names) (attr : Nat → Option (List Char))
+    (types : List Nat) (badIdx : Option Nat) (expected : List Nat) :
+    ∀ s ∈ makeSuggestion valid nm attr types badIdx expected,
+      ∃ ty ∈ expected, (s, ty) ∈ buildExpected nm attr (sortIds expected) [] := by
+  intro s hs
+  have fin : ∀ ty, (s, ty) ∈ buildExpected nm attr (sortIds expected) [] →
+      ∃ ty ∈ expected, (s, ty) ∈ buildExpected nm attr (sortIds expected) [] := by
+    intro ty h
+    rcases buildExpected_mem nm attr _ _ h with h1 | h1
+    · exact ⟨ty, mem_sortIds h1, h⟩
+    · simp at h1
+  have fromMap : s ∈ (buildExpected nm attr (sortIds expected) []).map (·.1) →
+      ∃ ty ∈ expected, (s, ty) ∈ buildExpected nm attr (sortIds expected) [] := by
+    intro h
+    obtain ⟨⟨v, ty⟩, hm, rfl⟩ := List.mem_map.1 h
+    exact fin ty hm
+  unfold makeSuggestion at hs
+  split at hs
+  · simp at hs
+  · simp only at hs
+    split at hs
+    · exact fromMap hs
+    · split at hs
+      · cases badIdx with
+        | none => exact fromMap hs
+        | some k =>
+          obtain ⟨ty, hm, _⟩ := trySuggest_mem valid types k _ s hs
+          exact fin ty hm
+      · simp at hs
+
 /-! ### the lexer's line/column loop -/
 
 def offs : List (List Char) → Nat
